@@ -16,8 +16,17 @@ pub struct HttpFront {
     _rt: tokio::runtime::Runtime,
 }
 
+/// ports from a range of this process' own (other harness processes and plugin scenarios run at the same time)
 fn free_port() -> u16 {
-    TcpListener::bind(("127.0.0.1", 0)).unwrap().local_addr().unwrap().port()
+    use std::sync::atomic::{AtomicU16, Ordering};
+    static NEXT: AtomicU16 = AtomicU16::new(0);
+    loop {
+        let k = NEXT.fetch_add(1, Ordering::SeqCst);
+        let port = 30000 + ((std::process::id() % 150) as u16) * 200 + (k % 200);
+        if TcpListener::bind(("127.0.0.1", port)).is_ok() {
+            return port;
+        }
+    }
 }
 
 #[derive(Clone, Debug)]
@@ -28,6 +37,16 @@ pub struct RawReply {
 
 impl HttpFront {
     pub fn start(api: Arc<InternalAPI>) -> HttpFront {
+        // a port can be taken between the probe and the servers' own bind: try again with other ports
+        for _ in 0..8 {
+            if let Some(f) = Self::try_start(api.clone()) {
+                return f;
+            }
+        }
+        panic!("cannot start the HTTP front");
+    }
+
+    fn try_start(api: Arc<InternalAPI>) -> Option<HttpFront> {
         let rt = tokio::runtime::Builder::new_multi_thread().worker_threads(2).enable_all().build().unwrap();
         let (grpc_port, http_port) = (free_port(), free_port());
         let grpc_addr: SocketAddr = format!("127.0.0.1:{grpc_port}").parse().unwrap();
@@ -35,16 +54,20 @@ impl HttpFront {
         let (shutdown, signal) = triggered::trigger();
         let s1 = signal.clone();
         rt.spawn(async move {
-            tonic::transport::Server::builder()
+            let _ = tonic::transport::Server::builder()
                 .add_service(PublicTowerServicesServer::new(api))
                 .serve_with_shutdown(grpc_addr, s1)
-                .await
-                .unwrap();
+                .await;
         });
         let (ready, ready_signal) = triggered::trigger();
         rt.spawn(teos::api::http::serve(http_addr, grpc_addr, ready, signal));
-        rt.block_on(ready_signal);
-        HttpFront { http_port, grpc_port, shutdown, _rt: rt }
+        let ok = rt.block_on(async { tokio::time::timeout(Duration::from_secs(6), ready_signal).await.is_ok() });
+        if !ok {
+            shutdown.trigger();
+            rt.shutdown_background();
+            return None;
+        }
+        Some(HttpFront { http_port, grpc_port, shutdown, _rt: rt })
     }
 
     /// one request on a fresh connection; None = no (complete) answer within the time-out
